@@ -276,6 +276,11 @@ func genHistory(id int, seed int64, p GenParams) *History {
 				op.Arg = int64(rng.Intn(int(g.next) + 3))
 			case "size":
 				op.Arg = int64(rng.Intn(int(g.next)*70 + 100))
+				if rng.Intn(2) == 0 {
+					// exactly on (or one byte off) the boundary "Stat size minus the first k live messages"
+					op.Arg2 = 1 + int64(rng.Intn(int(g.next)+2))
+					op.Arg = int64(rng.Intn(3)) - 1
+				}
 			case "age":
 				if len(g.times) > 0 && rng.Intn(4) > 0 {
 					op.Arg = g.times[rng.Intn(len(g.times))] + int64(rng.Intn(3)) - 1
